@@ -5,17 +5,18 @@ import SgVerif.C29.LemmasReduce
 import SgVerif.C29.LemmasSpec
 import SgVerif.C29.LemmasLr
 import SgVerif.C29.LemmasBruck
+import SgVerif.C29.LemmasA2aRing
 /-
 C29 — Every collective algorithm computes the MPI result.  Property theorems.
 
 (A) theorems on the SPEC (Model.lean §Spec), for every communicator size, count, buffers, and every operator that is
     associative (+ commutative where stated);
 (B) schedule theorems: the round-based models of allreduce-rdb (incl. its non-power-of-two pre/post phase),
-    allgather-ring, bcast binomial_tree (= the default bcast), alltoall pair, reduce flat_tree, reduce binomial, allgather bruck and
+    allgather-ring, bcast binomial_tree (= the default bcast), alltoall pair, alltoall ring, reduce flat_tree, reduce binomial, allgather bruck and
     allreduce lr (ring reduce-scatter + ring allgather; counts that are a positive multiple of the size)
     compute the spec's result for EVERY communicator size, root and rank (`allreduce_rdb_eq_spec`,
     `allgather_ring_eq_spec`, `bcast_binomial_eq_spec`, `alltoall_pair_eq_spec`, `reduce_flat_tree_eq_spec`,
-    `reduce_binomial_eq_spec`, `allreduce_lr_eq_spec`, `allgather_bruck_eq_spec`).  The other selectable algorithms are not modelled: they are tied to the spec by the
+    `reduce_binomial_eq_spec`, `allreduce_lr_eq_spec`, `allgather_bruck_eq_spec`, `alltoall_ring_eq_spec`).  The other selectable algorithms are not modelled: they are tied to the spec by the
     correspondence only.
 -/
 namespace SgVerif.C29
@@ -474,6 +475,23 @@ theorem alltoall_pair_refuses (blocks : List (List (List α))) (rank : Nat) (hp 
 example : alltoallPair [[[1], [2], [3], [4]], [[5], [6], [7], [8]], [[9], [10], [11], [12]], [[13], [14], [15], [16]]] 2
     = some [some [3], some [7], some [11], some [15]] := by decide
 example : alltoallPair [[[1], [2], [3]], [[4], [5], [6]], [[7], [8], [9]]] 1 = none := by decide
+
+/-- **ring alltoall (alltoall-ring.cpp) = the spec, for EVERY communicator size** (the pairwise exchange above only
+exists for powers of two), every rank, every block size: in round `i` rank `r` receives from `(r - i) % np` the block
+that this rank sends to `((r - i) + i) % np = r`. -/
+theorem alltoall_ring_eq_spec (c : Nat) (bufs : Bufs α) (res : Res α) (rank : Nat) (hr : rank < bufs.length)
+    (h : alltoall c bufs = some res) :
+    (allSome (alltoallRing (bufs.map (chunks c bufs.length)) rank)).map (fun row => some row.flatten) = res[rank]? := by
+  rw [alltoall_block c bufs res rank hr h]
+  have hrow : ∀ row ∈ bufs.map (chunks c bufs.length), rank < row.length := by
+    intro row hrow
+    obtain ⟨b, _, rfl⟩ := List.mem_map.mp hrow
+    rw [chunks_length]; exact hr
+  rw [alltoallRing_blocks (bufs.map (chunks c bufs.length)) rank hrow (by simpa using hr), allSome_map_some]
+  simp [List.filterMap_map, Function.comp_def]
+
+/-- non-vacuity: 3 ranks (not a power of two), 1 cell per block -/
+example : alltoallRing [[[1], [2], [3]], [[4], [5], [6]], [[7], [8], [9]]] 1 = [some [2], some [5], some [8]] := by decide
 
 /-- **flat-tree reduce (reduce-flat-tree.cpp) = the spec, for every communicator size and root**: the root computes
 `x₀ ⊕ (x₁ ⊕ (… ⊕ x_{np-1}))`; associativity only. -/
